@@ -212,6 +212,8 @@ func (cel *CryptoAgileLog) Unmarshal(r io.Reader) error {
 	if err := littleRead(r, "Header", &cel.Header); err != nil {
 		return err
 	}
+	// The events are those of this input: a receiver that was used before does not keep its old ones.
+	cel.Events = nil
 	for {
 		evt := &TCGPCREvent2{}
 		cr := &countingReader{r: r}
